@@ -388,6 +388,29 @@ def validate_obs(module, obs_path, env_extra=None):
     return val, nobs, recs
 
 
+def upstream_traces(run_regex):
+    """Runs the repository's own blockstore/storage tests built with -tags verif with the event recorder on,
+    and returns (lock events file, write log file, counts)."""
+    vh = build_harness()
+    tr = os.path.join(scratch(), "uptrace-%d.ndjson" % int(time.time() * 1000))
+    env = dict(vlib.GOENV, VERIF_TRACE_FILE=tr)
+    cmd = ["go", "test", "-tags", "verif", "-vet=off", "-count=1"]
+    if run_regex:
+        cmd += ["-run", run_regex]
+    cmd += ["./blockstore", "./storage/..."]
+    p = subprocess.run(cmd, cwd=os.path.join(vlib.REPO, "v2"), env=env, stdout=subprocess.PIPE, stderr=subprocess.STDOUT, text=True, timeout=3000)
+    if p.returncode != 0 or not os.path.exists(tr):
+        raise Inconclusive("the repository's tests (tag verif) did not pass or recorded nothing:\n" + p.stdout[-1500:])
+    locks, proto = tr + ".locks", tr + ".proto"
+    q = subprocess.run([vh, "uptrace-prep", tr, locks, proto], stdout=subprocess.PIPE, text=True)
+    os.remove(tr)
+    try:
+        counts = json.loads(q.stdout.strip().splitlines()[-1])
+    except Exception:
+        raise Inconclusive("uptrace-prep failed: " + q.stdout[-500:])
+    return locks, proto, counts
+
+
 def check_C06():
     vh = build_harness()
     check_alphabet(vh)
@@ -407,6 +430,14 @@ def check_C06():
                 if i == int(m.group(1)):
                     line = l.strip()
         drift.append("write log rejected by WriteProto.tla at event %s: %s %s" % (m.group(1) if m else "?", line, pv.get("violated") or ""))
+    # ... and the write logs of the repository's own resumption tests (code -> spec on executions upstream thought worth testing)
+    ulocks, uproto, ucounts = upstream_traces("Resumption|ReadWrite" if tier() == "quick" else None)
+    if os.path.getsize(uproto) > 0:
+        upv = run_tlc("WriteProto", "WriteProto.cfg", workers=1, timeout=1800, env={"VERIF_PROTO": uproto})
+        utxt = open(upv["out"], errors="replace").read()
+        if '"ACCEPTED"' not in utxt or not upv["ok"]:
+            m = re.search(r'<<"STUCK", (\d+)>>', utxt)
+            drift.append("write log of the repository's own tests rejected by WriteProto.tla at event %s" % (m.group(1) if m else "?"))
     sessions = {}
     for l in open(sess):
         s = json.loads(l)
@@ -429,6 +460,7 @@ def check_C06():
                    "puts + Finalize and decoded by the reference decoder + Inspect(true); each observation is validated by TLC against CrashObs!CrashSafe; the write logs are validated against the "
                    "I-layer WriteProto.tla" % (rep["counters"].get("sessions", 0) // 2 // max(1, (6 if tier() == "quick" else 10)), 6 if tier() == "quick" else 10),
            "samples": rep["samples"] or [{}], "counters": rep["counters"], "write_log_events_validated": sum(1 for _ in open(proto)),
+           "upstream_test_write_events_validated": sum(1 for _ in open(uproto)), "upstream_test_write_sessions": ucounts.get("write_sessions"),
            "tlc_validate_cmd": val["cmd"], "exhaustive": True}
     finish("C06", "fault_enumeration", cov, viols, inconclusive=rep.get("inconclusive") or None, drift=drift or None,
            assumptions=["a crash preserves a prefix of the issued writes, the last one possibly torn (no reordering by the file system)",
@@ -524,7 +556,24 @@ def check_C08():
                 viols.append({"class": "conc/not-linearizable/%s" % e["op"],
                               "detail": "history event %d: %s(%s) returned %s %s, which the sequential model at its linearization point does not give" % (r, e["op"], e["key"], e["res"], e["set"]),
                               "replay": {"family": "conc-history", "event": e, "preceding": ctx}})
+    # lock discipline (I-layer) on the traces of the repository's own concurrent tests
+    ulocks, uproto, ucounts = upstream_traces("Concurrent" if tier() == "quick" else None)
+    lockdrift = []
+    lv = run_tlc("LockTrace", "LockTrace.cfg", workers=1, timeout=2400, env={"VERIF_LOCKS": ulocks})
+    ltxt = open(lv["out"], errors="replace").read()
+    nlock = sum(1 for _ in open(ulocks))
+    lm = re.search(r'"VALIDATED", (\d+)', ltxt)
+    if not lm or int(lm.group(1)) != nlock:
+        inconc.append("LockTrace did not consume the lock trace: " + lv["tail"][-300:])
+    lrej = re.findall(r'<<"REJECT", (\d+)>>', ltxt)
+    if lrej:
+        lines = open(ulocks).read().splitlines()
+        ev = json.loads(lines[int(lrej[0]) - 1])
+        viols.append({"class": "conc/lock-discipline/overlapping-critical-sections",
+                      "detail": "in the repository's own tests (tag verif) %d lock events contradict mutual exclusion, first: event %s %s -- a critical section the lock discipline makes exclusive overlapped another one" % (len(lrej), lrej[0], ev),
+                      "replay": {"family": "lock-trace", "event": ev, "index": int(lrej[0])}})
     cov = {"states": model["distinct"], "transitions": model["states"], "traces_validated_against_impl": srep["evaluations"] + xrep["evaluations"],
+           "upstream_test_lock_events_validated_by_tlc": nlock,
            "evaluations": srep["evaluations"] + xrep["evaluations"], "distinct_nontrivial": srep["distinct_nontrivial"] + xrep["distinct_nontrivial"],
            "history_events_validated_by_tlc": nev,
            "rule": "(1) race-detector build: %d free-running rounds x {blockstore.ReadWrite, storage.StorageCar, DeferredCarWriter}, 2..16 goroutines, random mixes of Put/Has/Get/AllKeysChan/Finalize on 2..7 shared "
